@@ -163,6 +163,19 @@ func (w *gzipResponseWriter) Write(b []byte) (int, error) {
 	return n, err
 }
 
+// Flush writes the response header (with the gzip headers) if that has not
+// happened yet, flushes what the compressor has buffered and then flushes
+// the underlying ResponseWriter.
+func (w *gzipResponseWriter) Flush() {
+	if !w.statusCodeWritten {
+		w.WriteHeader(http.StatusOK)
+	}
+	if gzWriter, ok := w.internalWriter.(*gzip.Writer); ok {
+		gzWriter.Flush()
+	}
+	w.ResponseWriterWrapper.Flush()
+}
+
 //Writer use a lazy way to initialize Writer
 func (w *gzipResponseWriter) Writer() io.Writer {
 	if w.internalWriter == nil {
